@@ -151,6 +151,10 @@ def jobs(tier):
     js += [guard(0, flfixed=0), guard(2, flfixed=0), guard(3, short=True)]
     if tier != "quick":
         js += [guard(0, flfixed=1), guard(2, flfixed=1), guard(4, flfixed=5)]
+    for repl in (1, 0):
+        js.append(l2_job("C07.finalize.replace%d" % repl, "l2/c07_finalize_replace.c", defines={"REPL": repl},
+                         symbolic=["flags of the attempted module (non-allocating bits)"],
+                         bounds="registration after finalize, existing module %s" % ("replaceable" if repl else "not replaceable"), unwind=13))
     # a second registration attempted re-entrantly from a callback (also of a deny-ctx module)
     for deny in (1, 0):
         for cb in ((0, 1, 2) if (deny or tier != "quick") else (0,)):
